@@ -118,11 +118,21 @@ class Proposal:
 
 
 def enabled_mutators():
-    """All enabled mutator instances (= the last hierarchical pass)."""
+    """All mutator instances any hierarchical pass uses: the last pass (all
+    enabled mutators) plus instances that an earlier pass configures
+    differently (BinaryReduction restricted to assert commands)."""
     from ddsmt import strategy_hierarchical
     passes = strategy_hierarchical.get_passes()
-    muts, params = strategy_hierarchical.get_pass(passes, len(passes) - 1)
-    return muts
+    out = []
+    seen = set()
+    for pid in range(len(passes) - 1, -1, -1):
+        muts, params = strategy_hierarchical.get_pass(passes, pid)
+        for m in muts:
+            key = (type(m).__name__, getattr(m, 'ident', None))
+            if key not in seen:
+                seen.add(key)
+                out.append(m)
+    return out
 
 
 def hier_proposals(exprs, muts, work_c=60):
